@@ -3,6 +3,7 @@ EXTENDS VMem
 NoDev == {}
 Width == {"WidthAsImplemented"}
 NoSplit == {"NoLineSplit"}
+PerBatch == {"LastPerBatch"}
 OpsAll == {16, 17, 18, 19, 20, 21, 24, 26, 28, 29}
 OpsDw == {20, 21, 28, 29}
 OpsSub == {16, 17, 18, 19, 24, 26}
